@@ -360,7 +360,7 @@ size_t dataLength, double realPrecision, size_t *outSize, int64_t valueRangeSize
 	//TODO: return bytes....
 	convertTDPStoFlatBytes_int(tdps, newByteData, outSize);
 	if(*outSize > dataLength*sizeof(int16_t))
-		SZ_compress_args_int16_StoreOriData(oriData, dataLength+2, tdps, newByteData, outSize);
+		SZ_compress_args_int16_StoreOriData(oriData, dataLength, tdps, newByteData, outSize);
 	free_TightDataPointStorageI(tdps);
 }
 
